@@ -234,3 +234,15 @@ CLAIMS["C12"] = {
             "whose stage is certain from the recorded history get exact expectations. Dial orchestration itself is C05's subject. Flapping direct connections (closed in the instant they appear) are not judged; "
             "the only-if direction (an allowed caller gets its limited stream) is not asserted.",
 }
+
+CLAIMS['C13']["text"] += ' The schedule of a disconnect relative to message handling is owned by the harness: identify sees its host through a view in which every Connectedness answer and every peerstore call about the peer is a scheduling point, and a generated fault closes one connection (often the last) and lets its Disconnected notification run to completion, if it can, right after the k-th such call or inside the connected-lifetime address update; afterwards the addresses of a peer without connection must be gone once RecentlyConnectedAddrTTL has passed.'
+CLAIMS['C13']["note"] += " The wait for the injected Disconnected is bounded by scheduler yields (a mutex wait is not durably blocking under synctest), so whether it completes before the caller continues is scheduler-dependent and either order is accepted by the oracle; the dual race (a new connection opening between Disconnected's connectedness check and its downgrade) is not generated."
+
+CLAIMS['C18']["text"] += " Timelines also generate dialers that learn the listener's address at arbitrary instants and dial at instants defined relative to the learn instant across 0..n rollovers of the same running manager: while that instance keeps running through the learn period and the following one, the real verifier must accept the served leaf and the manager's confirmed hash list (SerializedCertHashes, i.e. the Noise early data) must contain every hash of the learnt address; a few real loopback dials (1..3 rollovers, addresses learnt before and after each) run in the quick tier."
+CLAIMS['C18']["note"] += " The across-rollover promise is asserted only against the instance the address was learnt from; a restarted listener forgets the previous period's hash (lastConfig is nil after init), which is recorded as a label, not reported. Inside the bubble the early-data confirmation is modelled from SerializedCertHashes; the real Noise handshake runs only in the loopback cases."
+
+CLAIMS['C19']["text"] += ' Client side also covers header-level tampering: the finished WWW-Authenticate / Authentication-Info value gets add / drop / duplicate / swap operators over every parameter name, including ones an honest server never sends (challenge-server, challenge-client, opaque, hostname, client-public-key); donors come from earlier sessions of the same client key, and signatures made for a stale or foreign context are accompanied by the challenge / client key / hostname they were really made for (impostor replay). The oracle reads signatures and keys from the final bytes on the wire and accepts a reported server ID only when one of them verifies under that ID over a challenge the client sent in that call, its key and the Host.'
+CLAIMS['C19']["note"] += ' Challenge freshness is judged per call: any challenge the client sent within the same call counts as its own, which includes the one from a refused client-initiated attempt.'
+
+CLAIMS["C01"]["text"] += " The real upgrader is additionally driven in both roles with match / other / empty expectations per side (a named peer in the server role is what a simultaneous-open dial uses): a side that names the peer it expects never gets a connection to anyone else."
+CLAIMS["C02"]["text"] += " The connection under every layer also delivers io.EOF together with the last bytes in a third of the cases."
